@@ -218,7 +218,9 @@ fn set_weights(ctx: &mut Ctx, wt: &mut WeightTables, var: u64, r: &mut Rng) -> R
 
 fn run(plan: &Plan, ctx: &mut Ctx) -> R {
     ctx.cur_prop = "C18";
-    let n0 = plan.get("nvars0").clamp(1, 6) as usize;
+    let n0 = plan.get("nvars0").clamp(1, 40) as usize;
+    // beyond 7 variables there is no truth-table model: the native twin alone is the reference
+    let wide = n0 > 6;
     // ---- manager through the C interface, twin natively
     let (mgr, native): (Mgr, &'static RobddBuilder<'static, AllIteTable<BP>>) = if plan.get("custom_order") != 0 {
         let perm = perm_from_index(n0, plan.get("order_idx") as u64);
@@ -270,7 +272,7 @@ fn run(plan: &Plan, ctx: &mut Ctx) -> R {
         if n == 0 && !matches!(kind, F_VAR | F_NEWVAR | F_NEWLABEL | F_CONST | F_COMPILE | F_SET_WEIGHT) {
             kind = F_VAR;
         }
-        if matches!(kind, F_NEWVAR | F_NEWLABEL) && nvars >= tt::MAXV {
+        if matches!(kind, F_NEWVAR | F_NEWLABEL) && nvars >= if wide { n0 + 6 } else { tt::MAXV } {
             kind = F_VAR;
         }
         let flag = op.a[3] & 1 == 1;
@@ -282,10 +284,12 @@ fn run(plan: &Plan, ctx: &mut Ctx) -> R {
             let tn = wb::walk_raw(nat, &mut BTreeMap::new());
             ctx.ev(300 + kind as u64, &[cp.len() as u64, wb::addr(cv) as u64, cv.is_neg() as u64, tt::lo(m), tt::hi(m)]);
             ctx.note(|| format!("[{i}] h{} = {what} -> C {}{:#x} / native {}{:#x}  tt={}", cp.len(), if cv.is_neg() { "~" } else { "" }, wb::addr(cv), if nat.is_neg() { "~" } else { "" }, wb::addr(nat), tt::show(m)));
-            ctx.check("C18", "ffi-result-differs-from-native", tc == tn, || {
-                format!("{what}: the C call returned a diagram denoting {}, the corresponding Rust operation returned one denoting {}", tt::show(tc), tt::show(tn))
-            })?;
-            ctx.check("C18", "ffi-result-function", tc == m, || format!("{what}: the C call returned a diagram denoting {}, expected {}", tt::show(tc), tt::show(m)))?;
+            if !wide {
+                ctx.check("C18", "ffi-result-differs-from-native", tc == tn, || {
+                    format!("{what}: the C call returned a diagram denoting {}, the corresponding Rust operation returned one denoting {}", tt::show(tc), tt::show(tn))
+                })?;
+                ctx.check("C18", "ffi-result-function", tc == m, || format!("{what}: the C call returned a diagram denoting {}, expected {}", tt::show(tc), tt::show(m)))?;
+            }
             let (sc, sn) = (wb::sig(cv, &mut BTreeMap::new()), wb::sig(nat, &mut BTreeMap::new()));
             ctx.check("C18", "ffi-result-differs-from-native", sc == sn, || format!("{what}: the C result and the native result have different structure ({sc:#x} vs {sn:#x})"))?;
             cp.push(c);
@@ -297,7 +301,7 @@ fn run(plan: &Plan, ctx: &mut Ctx) -> R {
             match kind {
                 F_VAR => {
                     let v = op.a[0].unsigned_abs() as usize % nvars;
-                    push(ctx, bdd_var(mgr, v as u64, flag), native.var(VarLabel::new(v as u64), flag), tt::lit(v, flag), "bdd_var", &mut cp, &mut np, &mut model)?;
+                    push(ctx, bdd_var(mgr, v as u64, flag), native.var(VarLabel::new(v as u64), flag), tt::lit(v.min(tt::MAXV - 1), flag), "bdd_var", &mut cp, &mut np, &mut model)?;
                 }
                 F_NEWVAR => {
                     let c = bdd_new_var(mgr, flag);
@@ -305,7 +309,7 @@ fn run(plan: &Plan, ctx: &mut Ctx) -> R {
                     ctx.check("C18", "ffi-new-label", lbl.value_usize() == nvars, || format!("native new_var gave label {} at {} variables", lbl.value(), nvars))?;
                     set_weights(ctx, &mut wt, nvars as u64, &mut wr)?;
                     nvars += 1;
-                    push(ctx, c, p, tt::lit(nvars - 1, flag), "bdd_new_var", &mut cp, &mut np, &mut model)?;
+                    push(ctx, c, p, tt::lit((nvars - 1).min(tt::MAXV - 1), flag), "bdd_new_var", &mut cp, &mut np, &mut model)?;
                 }
                 F_NEWLABEL => {
                     let l = bdd_new_label(mgr);
@@ -313,7 +317,7 @@ fn run(plan: &Plan, ctx: &mut Ctx) -> R {
                     ctx.check("C18", "ffi-new-label", l == nl.value() && l as usize == nvars, || format!("bdd_new_label = {l}, native new_label = {}, expected {nvars}", nl.value()))?;
                     set_weights(ctx, &mut wt, nvars as u64, &mut wr)?;
                     nvars += 1;
-                    push(ctx, bdd_var(mgr, l, flag), native.var(nl, flag), tt::lit(nvars - 1, flag), "bdd_new_label+bdd_var", &mut cp, &mut np, &mut model)?;
+                    push(ctx, bdd_var(mgr, l, flag), native.var(nl, flag), tt::lit((nvars - 1).min(tt::MAXV - 1), flag), "bdd_new_label+bdd_var", &mut cp, &mut np, &mut model)?;
                 }
                 F_CONST => {
                     if flag {
@@ -329,7 +333,7 @@ fn run(plan: &Plan, ctx: &mut Ctx) -> R {
                 F_COMPOSE => {
                     let v = op.a[2].unsigned_abs() as usize % nvars;
                     let l = VarLabel::new(v as u64);
-                    push(ctx, bdd_compose(mgr, cp[x], l, cp[y]), native.compose(np[x], l, np[y]), tt::compose_doc(model[x], v, model[y]), "bdd_compose", &mut cp, &mut np, &mut model)?;
+                    push(ctx, bdd_compose(mgr, cp[x], l, cp[y]), native.compose(np[x], l, np[y]), tt::compose_doc(model[x], v.min(tt::MAXV - 1), model[y]), "bdd_compose", &mut cp, &mut np, &mut model)?;
                 }
                 F_COMPILE => {
                     let g = &groups[op.a[0].unsigned_abs() as usize % 3];
@@ -343,7 +347,7 @@ fn run(plan: &Plan, ctx: &mut Ctx) -> R {
                     for c in g {
                         let mut ct = tt::FALSE;
                         for (v, p) in c {
-                            ct |= tt::lit(*v, *p);
+                            ct |= tt::lit((*v).min(tt::MAXV - 1), *p);
                         }
                         m &= ct;
                     }
@@ -352,12 +356,12 @@ fn run(plan: &Plan, ctx: &mut Ctx) -> R {
                 F_EQ => {
                     let (e, ne) = (bdd_eq(mgr, cp[x], cp[y]), native.eq(np[x], np[y]));
                     ctx.ev(300 + kind as u64, &[x as u64, y as u64, e as u64]);
-                    ctx.check("C18", "ffi-eq-differs-from-native", e == ne && e == (model[x] == model[y]), || format!("bdd_eq(h{x}, h{y}) = {e}, native eq = {ne}, same function = {}", model[x] == model[y]))?;
+                    ctx.check("C18", "ffi-eq-differs-from-native", e == ne && (wide || e == (model[x] == model[y])), || format!("bdd_eq(h{x}, h{y}) = {e}, native eq = {ne}, same function = {}", model[x] == model[y]))?;
                 }
                 F_PREDS => {
                     let (a, b, c) = (bdd_is_true(cp[x]), bdd_is_false(cp[x]), bdd_is_const(cp[x]));
                     ctx.ev(300 + kind as u64, &[x as u64, a as u64, b as u64, c as u64]);
-                    ctx.check("C18", "ffi-predicates", a == np[x].is_true() && b == np[x].is_false() && c == np[x].is_const() && a == (model[x] == tt::TRUE) && b == (model[x] == tt::FALSE), || {
+                    ctx.check("C18", "ffi-predicates", a == np[x].is_true() && b == np[x].is_false() && c == np[x].is_const() && (wide || (a == (model[x] == tt::TRUE) && b == (model[x] == tt::FALSE))), || {
                         format!("bdd_is_true/false/const(h{x}) = {a}/{b}/{c}, native {}/{}/{}", np[x].is_true(), np[x].is_false(), np[x].is_const())
                     })?;
                 }
@@ -369,7 +373,7 @@ fn run(plan: &Plan, ctx: &mut Ctx) -> R {
                         // low/high are only defined on decision nodes
                         let (cl, ch) = (bdd_low(cp[x]), bdd_high(cp[x]));
                         let (nl, nh) = (np[x].low(), np[x].high());
-                        let v = tv as usize;
+                        let v = (tv as usize).min(tt::MAXV - 1);
                         let ml = tt::restrict(model[x], v, false);
                         let mh = tt::restrict(model[x], v, true);
                         if flag {
@@ -548,7 +552,10 @@ impl World for FfiWorld {
         let mut c = Rng::stream(run_seed, "config");
         let mut o = Rng::stream(run_seed, "ops");
         let mut p = Rng::stream(run_seed, "placement");
-        let n0 = 1 + c.below(6);
+        // one run in 400: 20-22 variables (model counts beyond 10^6), native twin as the only reference
+        // (robdd_model_count smooths first, and rsdd's smoothing is exponential in the number of levels below a constant:
+        // 20-22 variables is the most a run can afford, and such runs are rare)
+        let n0 = if c.below(400) == 0 { 20 + c.below(3) } else { 1 + c.below(6) };
         cfg.insert("nvars0".into(), n0 as i64);
         cfg.insert("custom_order".into(), (c.below(3) == 0) as i64);
         cfg.insert("via_linear".into(), c.below(2) as i64);
